@@ -179,6 +179,18 @@ CLAIMS = {
              "delivered-after-cancel, delivered-after-termination and out-of-due-order deliveries whenever the intervals make the case certain.",
         note="Real time is measured, not controlled: cases inside the measurement uncertainty are not judged; a timer later than 150 ms counts as lost. "
              "Thread interleavings of timer and session are not enumerated."),
+    "C17": dict(
+        category="model_checking", design_ref="4/C17",
+        technique="Locks.tla: TLC explores all interleavings of the critical sections recorded from the implementation (instrumented mutex hook); every predicted wait-for cycle is replayed into the implementation by steering the real threads to the predicted program points",
+        text="Scenarios (sessions with firing timers that invoke and cancel children, send to each other, are started, cancelled and shut "
+             "down concurrently) run with the instrumented mutex; the distinct critical sections of every thread (locks shared by at least "
+             "two threads, leaf locks removed) become the thread programs of Locks.tla. TLC explores every interleaving of every 2 (thorough: 3) "
+             "threads of a run and reports each reachable state in which threads wait for locks held among themselves. Each predicted "
+             "cycle is then reproduced in the implementation: the lock hook holds the real threads at the predicted points (holding the "
+             "first lock, about to request the second, same lock instances) and releases them together; a stall whose wait-for graph "
+             "contains the cycle is a deadlock and is reported. A stall in any recorded run is reported as well.",
+        note="Sound only for lock nestings that occur in a recorded run; the model ignores happens-before between segments, therefore a predicted "
+             "cycle counts only when it is reproduced (unreproduced predictions are listed in the evidence). Condition variables / channel waits are not modelled."),
     "C18": dict(
         category="fault_enumeration", design_ref="4/C18",
         technique="Rfsm.tla reader/writer protocol model-checked (CutIsError); every cut position and every single write fault of real images validated by TraceC18.tla",
@@ -266,7 +278,7 @@ def main():
     print("MANIFEST.json: %d checks, %d not_applicable" % (len(checks), len(na)))
 
 
-HOOK_COMMITS = ["2226aba"]
+HOOK_COMMITS = ["2226aba", "fa7654f"]
 
 if __name__ == "__main__":
     main()
